@@ -70,19 +70,19 @@ TIERS["C06"] = {
         "controls": 1,
         "families": [
             {"Mode": "full", "NMets": 2, "NRxns": 3, "Pal": "PalS", "Dirs": "DirsMax"},
-            {"Mode": "rand", "NMets": 3, "NRxns": 5, "Pal": "PalB", "Dirs": "DirsMax", "NWalks": 200},
-            {"Mode": "rand", "NMets": 2, "NRxns": 4, "Pal": "PalInf", "Dirs": "DirsMax", "NWalks": 80},
+            {"Mode": "rand", "NMets": 3, "NRxns": 5, "Pal": "PalB", "Dirs": "DirsMax", "NWalks": 150},
+            {"Mode": "rand", "NMets": 2, "NRxns": 4, "Pal": "PalInf", "Dirs": "DirsMax", "NWalks": 60},
         ],
-        "exact_every": 6,
+        "exact_every": 8,
     },
     "thorough": {
         "design": {"Mode": "full", "NMets": 2, "NRxns": 3, "Pal": "PalA", "Dirs": "DirsBoth"},
         "controls": 99,
         "families": [
             {"Mode": "full", "NMets": 2, "NRxns": 3, "Pal": "PalA", "Dirs": "DirsBoth"},
-            {"Mode": "rand", "NMets": 3, "NRxns": 5, "Pal": "PalB", "Dirs": "DirsMax", "NWalks": 4000},
-            {"Mode": "rand", "NMets": 3, "NRxns": 6, "Pal": "PalA", "Dirs": "DirsMax", "NWalks": 1000},
-            {"Mode": "rand", "NMets": 2, "NRxns": 4, "Pal": "PalInf", "Dirs": "DirsMax", "NWalks": 1500},
+            {"Mode": "rand", "NMets": 3, "NRxns": 5, "Pal": "PalB", "Dirs": "DirsMax", "NWalks": 2500},
+            {"Mode": "rand", "NMets": 3, "NRxns": 6, "Pal": "PalA", "Dirs": "DirsMax", "NWalks": 700},
+            {"Mode": "rand", "NMets": 2, "NRxns": 4, "Pal": "PalInf", "Dirs": "DirsMax", "NWalks": 1000},
         ],
         "exact_every": 4,
     },
@@ -117,7 +117,7 @@ TIERS["C20"] = {
         "controls": 1,
         "families": [
             {"Mode": "full", "NMets": 2, "NRxns": 3, "Pal": "PalS", "Dirs": "DirsMax"},
-            {"Mode": "rand", "NMets": 3, "NRxns": 5, "Pal": "PalB", "Dirs": "DirsMax", "NWalks": 80},
+            {"Mode": "rand", "NMets": 3, "NRxns": 5, "Pal": "PalB", "Dirs": "DirsMax", "NWalks": 50},
         ],
         "exact_every": 0,
     },
@@ -136,7 +136,7 @@ THEOREMS = {
             "ThmRefsInScope"],
     "C06": ["ThmGeneKOProtocol", "ThmGeneDeletionPrior", "ThmRuleEval", "ThmCombinations", "ThmEssential"],
     "C18": ["ThmMediumInverse", "ThmMinMedium"],
-    "C20": ["ThmSummary"],
+    "C20": ["ThmSummary", "ThmSummaryObjective"],
 }
 CONTROLS = {      # Bug -> the theorem TLC must reject
     "C09": [("pfba_forward_only", "ThmPfbaFormulation"), ("room_no_abs", "ThmRoomFormulation"),
@@ -145,7 +145,7 @@ CONTROLS = {      # Bug -> the theorem TLC must reject
             ("combinations_drop_diagonal", "ThmCombinations"),
             ("gene_deletion_ignores_prior", "ThmGeneDeletionPrior")],
     "C18": [("medium_is_export_inverted", "ThmMediumInverse"), ("components_counts_exports", "ThmMinMedium")],
-    "C20": [("summary_no_minmax_swap", "ThmSummary")],
+    "C20": [("summary_no_minmax_swap", "ThmSummary"), ("summary_trusts_objective_value", "ThmSummaryObjective")],
 }
 ACTIONS = {
     "C09": ["pfba", "moma", "room", "linroom", "roomdef"],
@@ -590,8 +590,17 @@ def drive_c20(item, rec):
                                     "maximum": [float(b) for a, b in cl["frame"]]}, index=ids)
             has_rng = fva is not None
             k = cl["k"]
-            if k == "model":
+            if cl["passpfba"]:
+                from cobra.flux_analysis import pfba
+                sol = pfba(model)           # objective_value of this Solution is the total flux
+            if k == "model" and cl["stale"]:
+                # the solution (objective_value = old objective) is older than the model's objective
+                with model:
+                    model.objective = {rxns[r]: cl["c2"][r] for r in range(n) if cl["c2"][r]}
+                    s = model.summary(solution=sol, fva=fva)
+            elif k == "model":
                 s = model.summary(solution=sol, fva=fva)
+            if k == "model":
                 ev["plus"] = _rows(s.uptake_flux, rpos, mpos, True, has_rng, False)
                 ev["minus"] = _rows(s.secretion_flux, rpos, mpos, True, has_rng, False)
                 ev["objk"], ev["obj"] = fx(s._objective_value)
@@ -612,7 +621,7 @@ def drive_c20(item, rec):
                         _, ev["hi"] = fx(fr["maximum"].iloc[0])
                 if not isinstance(s.to_string(), str) or not isinstance(s.to_html(), str):
                     raise TypeError("not a string")
-                if j % 4 == 0:
+                if j % 6 == 0:
                     str(s)
                     s._repr_html_()
                     s.to_string(names=True)
